@@ -30,7 +30,7 @@ class Plan(object):
     monitor = None
 
     def budget(self, tier):
-        return 150 if tier == "quick" else 1500
+        return 150 if tier == "quick" else 2400
 
     def max_shards(self, tier):
         return 16
@@ -104,7 +104,7 @@ class SessionPlan(Plan):
     flavours = ("mixed", "pubflow", "subflow", "lossy", "timers")
     profiles = (None,)
     n_quick = 16000
-    n_thorough = 800000
+    n_thorough = 500000
     lens = (10, 25, 60)
     assumptions = SESSION_ASSUMPTIONS
 
